@@ -356,13 +356,25 @@ def sites(fn, facts=None):
                     if any((z.get("k") == "MethodCall" and z["name"] in ("strides", "stride_of") and root_of(z["recv"]) == root) or (z.get("k") == "Path" and z.get("local") in stride_locals) for z in walk(y["init"])):
                         stride_locals.add(y["pat"]["local"])
                         grew_ = True
-        if anc and anc[-1].get("k") == "Match" and anc[-1].get("src", "Normal") == "Normal" and anc[-1]["scrut"] is n:
-            for a_ in anc[-1]["arms"]:
-                if a_.get("guard") is not None and any(z.get("k") == "Path" and z.get("local") in stride_locals for z in walk(a_["guard"])):
+        # .. provided it looks at every axis: a test of `strides()[1]` alone says nothing about the order of the rows in
+        # the buffer (a view with its rows reversed passes it), so it does not make the guard a layout test
+        axes_read = set()
+        for y in walk(fn["body"]):
+            if y.get("k") == "Index":
+                b_ = peel_refs(y["e"])
+                if (b_.get("k") == "MethodCall" and b_["name"] == "strides" and root_of(b_["recv"]) == root) or (b_.get("k") == "Path" and b_.get("local") in stride_locals):
+                    i_ = peel_refs(y["i"]) if y.get("i") is not None else {}
+                    axes_read.add(str(i_.get("v")) if i_.get("k") == "Lit" else "?")
+        nd_ = _ndim(c, n["recv"]) if n.get("k") == "MethodCall" else None
+        partial_flag = bool(axes_read) and "?" not in axes_read and nd_ is not None and len(axes_read) < nd_
+        if not partial_flag:
+            if anc and anc[-1].get("k") == "Match" and anc[-1].get("src", "Normal") == "Normal" and anc[-1]["scrut"] is n:
+                for a_ in anc[-1]["arms"]:
+                    if a_.get("guard") is not None and any(z.get("k") == "Path" and z.get("local") in stride_locals for z in walk(a_["guard"])):
+                        unknown_guard = True
+            for a in anc:
+                if a.get("k") == "If" and any(z.get("k") == "Path" and z.get("local") in stride_locals for z in walk(a["c"])):
                     unknown_guard = True
-        for a in anc:
-            if a.get("k") == "If" and any(z.get("k") == "Path" and z.get("local") in stride_locals for z in walk(a["c"])):
-                unknown_guard = True
         # `match x.as_slice_memory_order_mut() { Some(flat) if x.is_standard_layout() && .. => .., _ => <fallback> }`: the arm
         # that receives the buffer is taken only under the layout test
         if anc and anc[-1].get("k") == "Match" and anc[-1].get("src", "Normal") == "Normal" and anc[-1]["scrut"] is n:
